@@ -170,6 +170,7 @@ def run(chk, prog):
         chk.floor(RD, 'compiler operator-token rows', n, 12)
 
     origin_names_through_the_getter(chk, prog, tr)
+    operators_carry_origins_as_tabled(chk, prog)
     origins_rebuilt_on_push(chk, prog, tr, 'C07.origins-recomputed-on-push',
                             'StoryState::push_evaluation_stack rebuilds the origins of a list value from its items / origin '
                             'names: every push onto InkList::origins there is dominated by a clear of the same vector (or the '
@@ -262,6 +263,52 @@ def origin_names_through_the_getter(chk, prog, tr):
                    'the old value\'s origin names are tested for emptiness before they replace the new value\'s',
                    'retain_list_origins_for_assignment overwrites the origin of the new empty list even when the old '
                    'value belongs to no list: `~ v = L()` over an untyped empty list loses L', rl.loc(0))
+
+
+ORIGIN_CARRYING = {
+    # operator -> does its result remember the lists its receiver belongs to (so that it still belongs to them when it
+    # is, or becomes, empty)?  As in the reference InkList: the copy constructor and ListWithSubRange hand the origin
+    # names on; the operators that build a *new* list (intersect, inverse, all, has, min / max as list) do not.
+    'InkList::union': True, 'InkList::without': True, 'InkList::list_with_sub_range': True,
+    'InkList::intersect': False, 'InkList::inverse': False, 'InkList::get_all': False,
+    'InkList::min_as_list': False, 'InkList::max_as_list': False,
+}
+
+
+def operators_carry_origins_as_tabled(chk, prog):
+    RH = 'C07.operator-results-carry-origins-as-tabled'
+    chk.rule(RH, 'Whether the result of a list operator remembers the origin of its receiver decides what LIST_ALL / '
+             'LIST_INVERT / list + int of an *empty* result give. For each operator the answer read off the code - does it '
+             'reach, through InkList\'s own methods, from_other_list or set_initial_origin_names? - equals the tabled one '
+             '(union, difference and sub-range carry; intersection, inverse, all, min / max do not).')
+
+    def carries(f, depth=0, seen=None):
+        seen = seen if seen is not None else set()
+        if f.p in seen or depth > 4:
+            return False
+        seen.add(f.p)
+        for g_ in prog.with_closures(f):
+            for _, t in g_.calls():
+                cs = callee_short(t)
+                if cs in ('InkList::from_other_list', 'InkList::set_initial_origin_names'):
+                    return True
+                h = prog.fns.get(callee(t))
+                if h is not None and (h.self_adt or '').endswith('InkList') and cs not in (
+                        'InkList::get_origin_names', 'InkList::get_min_item', 'InkList::get_max_item',
+                        'InkList::get_ordered_items') and carries(h, depth + 1, seen):
+                    return True
+        return False
+    for name, want in sorted(ORIGIN_CARRYING.items()):
+        f = prog.fn(name)
+        if not chk.anchor(RH, name, f):
+            continue
+        got = carries(f)
+        chk.decide(RH, chk.key(RH, name), got == want,
+                   'carries the receiver\'s origins: %s' % got,
+                   '%s %s the origin names of its receiver on to its result, the table says it %s: an empty result '
+                   'then belongs to %s, and LIST_ALL / LIST_INVERT of it print %s' % (
+                       name, 'now hands' if got else 'no longer hands', 'does not' if got else 'does',
+                       'the receiver\'s lists' if got else 'no list', 'their items' if got else 'nothing'), f.loc(0))
 
 
 def origins_rebuilt_on_push(chk, prog, tr, RE, text):
